@@ -122,7 +122,7 @@ def make_universes(order: int):
     mod = type(sys)("mc_c01_gen")
     mod.__dict__.update(ns)
     sys.modules["mc_c01_gen"] = mod
-    exec(compile(src, "<c01-generated>", "exec"), mod.__dict__)
+    exec(compile(src, "<c01-generated>", "exec", dont_inherit=True), mod.__dict__)
     g = mod.__dict__
 
     def specs(vals):
